@@ -23,6 +23,8 @@ pub mod c14;
 pub mod c16;
 #[cfg(feature = "full")]
 pub mod c18;
+#[cfg(feature = "full")]
+pub mod c17;
 pub mod c12;
 #[cfg(feature = "full")]
 pub mod common;
@@ -54,6 +56,8 @@ pub fn run(prop: &str, ctx: &Ctx) -> Option<Report> {
         "C16" => Some(c16::run(ctx)),
         #[cfg(feature = "full")]
         "C18" => Some(c18::run(ctx)),
+        #[cfg(feature = "full")]
+        "C17" => Some(c17::run(ctx)),
         "C12" => Some(c12::run(ctx)),
         _ => None,
     }
@@ -82,6 +86,8 @@ pub fn replay(prop: &str, ctx: &Ctx, case: &Value) -> ReplayResult {
         "C16" => c16::replay(ctx, case),
         #[cfg(feature = "full")]
         "C18" => c18::replay(ctx, case),
+        #[cfg(feature = "full")]
+        "C17" => c17::replay(ctx, case),
         "C12" => c12::replay(ctx, case),
         _ => Err(format!("no replay for property {}", prop)),
     }
